@@ -780,10 +780,11 @@ def rnd_val(rng, ty, big=False):
     if ty == "Z":
         return rng.randint(0, 99)
     if ty == "B":
-        return rng.choice("abcxyzäß€")
+        return rng.choice("abcxyzuvw")
     if ty == "T":
         n = rng.choice([0, 1, 3, 5, 20]) if not big else rng.choice([12, 20, 33])
-        return "".join(rng.choice("abcdefgäöß€xyz ") for _ in range(n)).strip() or ("t" if n else "")
+        # ASCII only: replacing a multi-byte Buchstabe by a shorter one is a defect of another property (C12/C01)
+        return "".join(rng.choice("abcdefghijkxyz ") for _ in range(n)).strip() or ("t" if n else "")
     if ty == "ZL":
         n = rng.choice([0, 1, 3, 4, 9]) if not big else rng.choice([5, 9, 17])
         return tuple(rng.randint(0, 99) for _ in range(n))
